@@ -37,6 +37,18 @@ CHECKS = {
         note="Encoding conventions listed in the evidence file's assumptions (incl. FTP services reporting STOPPED unless active this step).",
         design_ref="DESIGN.md §4 C09",
     ),
+    "C10": dict(
+        technique="exhaustive product of reward-sharing digraphs built into real PrimaiteGame objects vs reference evaluation; deviation-bounded/BFS exploration of real env with a lock-step reward reference model",
+        text="Every labelled sharing digraph (self-loops included) on up to 3 agents (thorough: all 4096 loop-free digraphs on 4 agents too) "
+             "is built by the real PrimaiteGame.from_config: cyclic <=> rejected at load; acyclic graphs are stepped 4 times with action "
+             "scripts that change every agent's own component each step, rewards compared with a recursive reference on same-step values, "
+             "evaluation order checked dependencies-first, totals checked. On GEN members carrying every shipped component (sticky and "
+             "non-sticky, several weights, blue sharing green) and on data_manipulation, after every explored step each component is "
+             "recomputed by a reference model from live objects and the agent's own last action/response: current = sum(w*c), total = sum, "
+             "env reward = blue's reward, history reward = step reward.",
+        note="Reference component semantics follow rewards.py docstrings; sticky memory is modelled in lock-step.",
+        design_ref="DESIGN.md §4 C10",
+    ),
     "C11": dict(
         technique="explicit-state BFS + deviation-bounded enumeration over real PrimaiteGymEnv with masking; whole mask vector vs independent request-tree walk; monitor on RequestManager.__call__",
         text="On GEN members with action masking and node durations 0/1/2 (so SHUTTING_DOWN/BOOTING, restarting services and installing "
